@@ -41,14 +41,15 @@ def check(ctx):
     with ctx.only(lambda k: k in ("resolver/Composite.path", "resolver/Variant.path")):
         G.resolver_arms(ctx, "C07.2")
     # same key on both sides
-    expect_fn(ctx, "C07.3", "same-key/contains", "TypeSubstitutes::contains", "(Not(Vec::is_empty(P1))&&HashMap::contains_key(P0.substitutes,P1))",
+    expect_fn(ctx, "C07.3", "same-key/contains", "TypeSubstitutes::contains", "(Not(slice::is_empty(P1))&&HashMap::contains_key(P0.substitutes,P1))",
               "`contains` = non-empty key present in the substitute map", "scale_typegen")
     expect_fn(ctx, "C07.3", "same-key/lookup", "TypeSubstitutes::for_path_with_params",
               "Option::map(HashMap::get(P0.substitutes,P1),|1|{for_path_with_params::replace_params(C1_0.path,P2,C1_0.param_mapping,P3)})",
               "look-up in the same map with the same key; the rule's own path and mapping are used", "scale_typegen")
     # argument mapping
-    REPL = "Iterator::collect(Iterator::filter_map(P2@TypeParamMapping::Specified.0,|1|{Option::map(slice::get(P1,C1_0.1),|1|{(C1_0.0,C2_0)})}))"
-    PATH = "mut[P0;substitutes::replace_path_params_recursively(&self,%s,P3) if P2~TypeParamMapping::Specified($)&&Not(Vec::is_empty(%s))]" % (REPL, REPL)
+    S_ = "P2@TypeParamMapping::Specified.0"
+    REPL = "vec+(for(%s){if(let v1::Some($)=slice::get(P1,elem(%s).1)){(elem(%s).0,slice::get(P1,elem(%s).1)@v1::Some.0)}else{'()'}})" % (S_, S_, S_, S_)
+    PATH = "mut[P0;substitutes::replace_path_params_recursively(&self,%s,P3) if P2~TypeParamMapping::Specified($)&&Not(slice::is_empty(%s))]" % (REPL, REPL)
     expect_fn(ctx, "C07.4", "mapping/apply", "for_path_with_params::replace_params",
               "match(P2){TypeParamMapping::Specified($)=>type_path::TypePathType::Path{params:Vec::new(),path:%s};TypeParamMapping::PassThrough=>type_path::TypePathType::Path{params:P1,path:%s}}" % (PATH, PATH),
               "PassThrough: substitute path + the resolved arguments unchanged, in order. Specified: each (ident, idx) is paired with params.get(idx) (identity, no arithmetic), "
@@ -59,13 +60,13 @@ def check(ctx):
     else:
         t = show(Norm(fn).term(fn["body"]), 10 ** 6)
         SRCs, TGTs = q.sort_match_arms(SRC), q.sort_match_arms(TGT)
-        ctx.expect(("(Vec::is_empty(%s)&&Vec::is_empty(%s))=>return Ok(TypeParamMapping::PassThrough)" % (SRCs, TGTs)) in t, "C07.6", "mapping/pass-through-iff-no-generics", fn["sp"],
+        ctx.expect(("(slice::is_empty(%s)&&slice::is_empty(%s))=>return Ok(TypeParamMapping::PassThrough)" % (SRCs, TGTs)) in t, "C07.6", "mapping/pass-through-iff-no-generics", fn["sp"],
                    "PassThrough iff neither the source nor the target path declares generic arguments", "pass-through guard changed")
         ctx.expect(t.endswith("}Ok(TypeParamMapping::Specified(Iterator::collect(Iterator::map(Iterator::enumerate(%s),|1|{(C1_0.1,C1_0.0)}))))" % SRCs), "C07.6", "mapping/index-by-source-position", fn["sp"],
                    "each source parameter ident is mapped to its own position among the SOURCE arguments (enumerate, order-preserving)", "mapping construction changed: " + t[-400:])
     # replacer
     expect_fn(ctx, "C07.7", "replacer", "substitutes::replace_path_params_recursively",
-              "for(P0.segments){early{!let PathArguments::AngleBracketed($)=elem(P0.segments).arguments=>continue}for(elem(P0.segments).arguments@PathArguments::AngleBracketed.0.args){early{!let GenericArgument::Type($)=elem(elem(P0.segments).arguments@PathArguments::AngleBracketed.0.args)=>continue;!let Type::Path($)=mut[elem(elem(P0.segments).arguments@PathArguments::AngleBracketed.0.args)@GenericArgument::Type.0;=TypePath::to_syn_type(Iterator::find(P1,|1|{(substitutes::get_ident_from_type_path(<self>@Type::Path.0)@v1::Some.0==C1_0.0)})@v1::Some.0.1," + ANY + ") if for(P0.segments)&&for(elem(P0.segments).arguments@PathArguments::AngleBracketed.0.args)&&let v1::Some($)=substitutes::get_ident_from_type_path(<self>@Type::Path.0)&&let v1::Some((_,$))=Iterator::find(P1,|1|{(substitutes::get_ident_from_type_path(<self>@Type::Path.0)@v1::Some.0==C1_0.0)})]=>continue}{if(let v1::Some($)=substitutes::get_ident_from_type_path(<self>@Type::Path.0)){early{let v1::Some((_,$))=Iterator::find(P1,|1|{(substitutes::get_ident_from_type_path(<self>@Type::Path.0)@v1::Some.0==C1_0.0)})=>continue}'()'}else{'()'};substitutes::replace_path_params_recursively(<self>@Type::Path.0.path,P1,P2)}}}",
+              "for(P0.segments){early{!let PathArguments::AngleBracketed($)=elem(P0.segments).arguments=>continue}for(elem(P0.segments).arguments@PathArguments::AngleBracketed.0.args){early{!let GenericArgument::Type($)=elem(elem(P0.segments).arguments@PathArguments::AngleBracketed.0.args)=>continue;!let Type::Path($)=mut[elem(elem(P0.segments).arguments@PathArguments::AngleBracketed.0.args)@GenericArgument::Type.0;=TypePath::to_syn_type(Iterator::find(P1,|1|{(substitutes::get_ident_from_type_path(<self>@Type::Path.0)@v1::Some.0==C1_0.0)})@v1::Some.0.1," + ANY + ") if for(P0.segments)&&elem(P0.segments).arguments~PathArguments::AngleBracketed($)&&for(elem(P0.segments).arguments@PathArguments::AngleBracketed.0.args)&&elem(elem(P0.segments).arguments@PathArguments::AngleBracketed.0.args)~GenericArgument::Type($)&&<self>~Type::Path($)&&let v1::Some($)=substitutes::get_ident_from_type_path(<self>@Type::Path.0)&&let v1::Some((_,$))=Iterator::find(P1,|1|{(substitutes::get_ident_from_type_path(<self>@Type::Path.0)@v1::Some.0==C1_0.0)})]=>continue}{if(let v1::Some($)=substitutes::get_ident_from_type_path(<self>@Type::Path.0)){early{let v1::Some((_,$))=Iterator::find(P1,|1|{(substitutes::get_ident_from_type_path(<self>@Type::Path.0)@v1::Some.0==C1_0.0)})=>continue}'()'}else{'()'};substitutes::replace_path_params_recursively(<self>@Type::Path.0.path,P1,P2)}}}",
               "all segments and all angle-bracketed type-path arguments are visited; an argument that is exactly a mapped ident is replaced by the resolved type (only write); "
               "everything else is searched recursively", "scale_typegen")
     expect_fn(ctx, "C07.7", "replacer/ident-shape", "substitutes::get_ident_from_type_path",
